@@ -554,6 +554,11 @@ def handle (ws : List String) : String :=
   | ["hcstr", s] => match parseCps s with
     | some s => if hcString s then "1" else "0" | none => "bad"
   | "chk" :: rest => handleChk rest
+  | ["castf", w, vs] =>
+    match (vs.splitOn ",").mapM String.toInt? with
+    | some vs => "ok " ++ ",".intercalate (vs.map fun v =>
+        match (if w == "8" then castIntToF64 v else castIntToF32 v) with | some b => toString b | none => "!")
+    | none => "bad"
   | ["cast", nb, sg, vs] =>
     match nb.toNat?, (vs.splitOn ",").mapM String.toInt? with
     | some nb, some vs =>
